@@ -249,3 +249,5 @@ def run(R, ctx):
     reach_and_list(R, ctx)
     from .. import loops
     loops.index_removal_rule(R, ctx, "C01.index")
+    from . import c08
+    c08.if_effects(R, ctx, "C01.if-effects")
